@@ -224,3 +224,45 @@ func OnceValues[T1, T2 any](f func() (T1, T2)) func() (T1, T2) {
 		return v1, v2
 	}
 }
+
+// Pool mirrors sync.Pool. Under the scheduler it is a deterministic LIFO free list whose Get and
+// Put are scheduling points; Put parks a second time AFTER the object is back in the pool, so
+// that another thread can take it while the caller still runs on — the interleaving in which a
+// reference kept past the Put is used after somebody else got the object.
+type Pool struct {
+	New   func() any
+	r     real.Pool
+	items []any
+}
+
+func (p *Pool) Get() any {
+	if sched.Controlled() {
+		sched.Point("Pool.Get")
+		if n := len(p.items); n > 0 {
+			x := p.items[n-1]
+			p.items = p.items[:n-1]
+			return x
+		}
+		if p.New != nil {
+			return p.New()
+		}
+		return nil
+	}
+	if x := p.r.Get(); x != nil {
+		return x
+	}
+	if p.New != nil {
+		return p.New()
+	}
+	return nil
+}
+
+func (p *Pool) Put(x any) {
+	if sched.Controlled() {
+		sched.Point("Pool.Put")
+		p.items = append(p.items, x)
+		sched.Point("Pool.Put.done")
+		return
+	}
+	p.r.Put(x)
+}
